@@ -667,13 +667,15 @@ func (f *fileConfig) Reload(opts ...ReloadedConfigDataOption) error {
 
 	// reread the configs
 	cfg, err := newFileConfig(f.opts, newData.configs, newData.rules)
-	if err != nil {
+	// as at startup, only a nil config is fatal; a non-nil config that comes
+	// with an error merely carries warnings and is applied
+	if cfg == nil {
 		return err
 	}
 
 	// if nothing's changed, we're fine
 	if f.mainHash == cfg.mainHash && f.rulesHash == cfg.rulesHash {
-		return nil
+		return err
 	}
 
 	// otherwise, update our state and call the callbacks
@@ -687,7 +689,7 @@ func (f *fileConfig) Reload(opts ...ReloadedConfigDataOption) error {
 	for _, cb := range f.callbacks {
 		cb(cfg.mainHash, cfg.rulesHash)
 	}
-	return nil
+	return err
 }
 
 // GetHashes returns the current hash values for the main and rules configs.
